@@ -94,15 +94,15 @@ int __real_ftruncate(int, off_t);
 int __real_ftruncate64(int, off64_t);
 int __real_close(int);
 
-bool c15_ops_heap_fail();
+bool c15_ops_heap_fail(size_t n);
 void* __wrap_malloc(size_t n) {
-  if (must_fail(kHeap) || c15_ops_heap_fail()) { errno = ENOMEM; return nullptr; }
+  if (must_fail(kHeap) || c15_ops_heap_fail(n)) { errno = ENOMEM; return nullptr; }
   void* p = __real_malloc(n);
   if (g_track && p) { bool t = g_track; g_track = false; g_live_heap->insert(p); g_track = t; }
   return p;
 }
 void* __wrap_realloc(void* old, size_t n) {
-  if (must_fail(kHeap) || c15_ops_heap_fail()) { errno = ENOMEM; return nullptr; }
+  if (must_fail(kHeap) || c15_ops_heap_fail(n)) { errno = ENOMEM; return nullptr; }
   void* p = __real_realloc(old, n);
   if (g_live_heap && p) { bool t = g_track; g_track = false; if (g_live_heap->erase(old) || t) g_live_heap->insert(p); g_track = t; }
   return p;
@@ -960,8 +960,9 @@ static bool ops_arena_pred() {
   uint64_t i = g_op_cnt++;
   return i < 64 && ((g_op_mask >> i) & 1);
 }
-extern "C" bool c15_ops_heap_fail() {
+extern "C" bool c15_ops_heap_fail(size_t n) {
   if (!g_op_armed || !g_op_heap) return false;
+  if (n + 32 >= 8192 && ((n + 32) & (n + 31)) == 0) return false;   // a block of the CodeHolder arena, not a request of the operation
   uint64_t i = g_op_cnt++;
   return i < 64 && ((g_op_mask >> i) & 1);
 }
@@ -1114,6 +1115,23 @@ static std::string ops_step(const std::vector<std::string>& w) {
       g_op_heap = true;
       g_op_armed = true;
       e = c.a.embed(bytes.data(), bytes.size());
+      g_op_armed = false;
+    }
+  }
+  else if (op == "inst" || op == "jmpf") {
+    // a plain x86 instruction / a jump to the never-bound label l0 through the real x86::Assembler::_emit
+    if (!U(3, u0) || (op == "inst" && !U(4, u1))) return "bad-op";
+    if (op == "jmpf" && !c.l0.is_valid()) return "precond";
+    if (!code.is_section_valid(uint32_t(u0))) e = Error::kInvalidSection;
+    else {
+      c.a.section(code.section_by_id(uint32_t(u0)));
+      g_op_heap = true;
+      g_op_armed = true;
+      if (op == "jmpf") e = c.a.jmp(c.l0);
+      else if (u1 == 0) e = c.a.nop();
+      else if (u1 == 1) e = c.a.mov(x86::eax, 0x11223344);
+      else if (u1 == 2) e = c.a.ret();
+      else e = c.a.add(x86::rax, x86::rcx);
       g_op_armed = false;
     }
   }
